@@ -444,6 +444,9 @@ private:
   std::unique_ptr<context_sensitivity_policy_t> m_cs_policy;
   // -- for computing fixpoint of recursive functions
   func_fixpoint_map_t m_func_fixpoint_table;
+  // -- entries of the recursive calls that were replaced with top
+  //    because the callee was in the call stack.
+  std::unordered_map<callgraph_node_t, abs_dom_t> m_recursive_entries;
   // -- enable checking interleaved with analysis
   bool m_enable_checker;
   checks_db_t m_checks_db;
@@ -663,6 +666,10 @@ public:
 
   func_fixpoint_map_t &get_func_fixpoint_table() {
     return m_func_fixpoint_table;
+  }
+
+  std::unordered_map<callgraph_node_t, abs_dom_t> &get_recursive_entries() {
+    return m_recursive_entries;
   }
 
   bool keep_cc_invariants() const { return m_keep_cc_invariants; }
@@ -1402,6 +1409,16 @@ private:
 	  // When the checker runs on bar we won't have a summary for
 	  // foo since its analysis is not completed yet.
 	  callee_exit.set_to_top();
+	  // The callee is being analyzed with another entry. Remember
+	  // the entry of this call so that the callee's invariants
+	  // can account for it when its analysis finishes.
+	  auto &rec_entries = m_ctx.get_recursive_entries();
+	  auto rit = rec_entries.find(callee_cg_node);
+	  if (rit == rec_entries.end()) {
+	    rec_entries.insert({callee_cg_node, callee_entry});
+	  } else {
+	    rit->second |= callee_entry;
+	  }
           crab::CrabStats::count("Interprocedural.num_recursive_callsites");
 	  CRAB_VERBOSE_IF(1, get_msg_stream()
 			  << "++ Skipped analysis of recursive callee \""
@@ -1421,18 +1438,45 @@ private:
 	  // The callee can be a recursive function but this call does
 	  // not produce a cycle yet so we can analyze it.
 	  
-	  abs_dom_t callee_init(callee_entry);
-	  this->set_abs_value(std::move(callee_init));
+	  auto &rec_entries = m_ctx.get_recursive_entries();
+	  for (unsigned iter = 0;; ++iter) {
+	    abs_dom_t callee_init(callee_entry);
+	    this->set_abs_value(std::move(callee_init));
 
-	  CRAB_LOG("inter", crab::outs() << "[INTER] Started \"";
-		   crab::outs()
-		   << cs << "\" with entry=" << callee_entry << "\n";);
+	    CRAB_LOG("inter", crab::outs() << "[INTER] Started \"";
+		     crab::outs()
+		     << cs << "\" with entry=" << callee_entry << "\n";);
 
-	  m_ctx.get_call_stack().push_back(callee_cg_node);
-	  callee_analysis = top_down_inter_impl::analyze_function<
-	    typename CallGraph::node_t, intra_analyzer_with_call_semantics_t>(
+	    m_ctx.get_call_stack().push_back(callee_cg_node);
+	    callee_analysis = top_down_inter_impl::analyze_function<
+	      typename CallGraph::node_t, intra_analyzer_with_call_semantics_t>(
 		   callee_cg_node, m_absval_fac, *this, 0);
-	  m_ctx.get_call_stack().pop_back();
+	    m_ctx.get_call_stack().pop_back();
+
+	    // If the callee was called recursively while it was in the
+	    // call stack (case 4.b) then that call was replaced with
+	    // top but the callee was analyzed only with callee_entry.
+	    // Re-analyze the callee until its entry also covers the
+	    // entries of those recursive calls.
+	    auto rit = rec_entries.find(callee_cg_node);
+	    if (rit == rec_entries.end()) {
+	      break;
+	    }
+	    abs_dom_t rec_entry(rit->second);
+	    rec_entries.erase(rit);
+	    if (rec_entry <= callee_entry) {
+	      break;
+	    }
+	    CRAB_LOG("inter", crab::outs()
+		     << "[INTER] Re-analyzing \"" << cs
+		     << "\" to include recursive entry=" << rec_entry << "\n";);
+	    rec_entry |= callee_entry;
+	    if (iter >= m_ctx.get_fixpo_params().get_widening_delay()) {
+	      callee_entry = callee_entry || rec_entry;
+	    } else {
+	      callee_entry = rec_entry;
+	    }
+	  }
 
 	  // callee_analysis should be only null if the function is
 	  // recursive and its fixpoint converges in one iteration which
